@@ -12,6 +12,7 @@ import (
 
 	"github.com/BondMachineHQ/BondMachine/pkg/basm"
 	"github.com/BondMachineHQ/BondMachine/pkg/bmconfig"
+	"github.com/BondMachineHQ/BondMachine/pkg/bmreqs"
 	"github.com/BondMachineHQ/BondMachine/pkg/bmstack"
 	"github.com/BondMachineHQ/BondMachine/pkg/bondmachine"
 	"github.com/BondMachineHQ/BondMachine/pkg/procbuilder"
@@ -37,7 +38,12 @@ type procSpec struct {
 	Threaded int      `json:"threaded,omitempty"`
 }
 
+// requirements of the last machine assembled from BASM (what 'basm -dump-requirements' writes); the hardware
+// optimisations of the Verilog generator read them through Config.ReqRoot, as cmd/bondmachine -bmrequirements-file does
+var lastReqs *bmreqs.ExportedReqs
+
 func buildBM(s *bmSpec) (bm *bondmachine.Bondmachine, err error) {
+	lastReqs = nil
 	defer func() {
 		if r := recover(); r != nil {
 			err = fmt.Errorf("panic: %v", r)
@@ -61,6 +67,8 @@ func buildBM(s *bmSpec) (bm *bondmachine.Bondmachine, err error) {
 				return
 			}
 			bm = bi.GetBondMachine()
+			r := bi.DumpRequirements()
+			lastReqs = &r
 		})
 		return
 	}
@@ -135,6 +143,11 @@ func writeVerilogFiles(bm *bondmachine.Bondmachine, hwopt []string, flavor strin
 	for _, o := range hwopt {
 		if id := procbuilder.HwOptimizationId(o); id != 0 {
 			conf.HwOptimizations = procbuilder.SetHwOptimization(conf.HwOptimizations, id)
+		}
+	}
+	if len(hwopt) > 0 && lastReqs != nil {
+		if rg, e := bmreqs.Import(lastReqs); e == nil {
+			conf.ReqRoot = rg
 		}
 	}
 	if flavor == "" {
